@@ -25,3 +25,34 @@ Theorem C18_names_irrelevant : forall orc name f, fn_by_name orc name = Some f -
   forall vn obj field obj' field' v, violated (f vn obj field v) = violated (f vn obj' field' v).
 Proof. exact (fun orc name f H vn obj field obj' field' v => proj2 (proj2 (table_contract orc name f H vn obj field v)) obj' field'). Qed.
 Print Assumptions C18_names_irrelevant.
+
+(* ---- from the source text (regenerated from /repo on every run): VVar.validate (valid/validvar.go), under the semantics
+   of Model/GoWalk.v, IS the model's walker over the rules of a variable — for every configuration, rule map, value and
+   buffer: "have no set rule" when nothing is set, otherwise the fold of var_rule over the split rule text (unknown
+   name: error clause and go on; nil function: required by emptiness, any other name "is no support"; a rule function
+   only on a non-zero value); and VVar.Valid as a whole is that followed by getError ---- *)
+From PGV Require Import Base.MiniGo Extracted.SourceConst Extracted.SourceFnsWalk Model.GoWalk Proofs.GoWalkProofs Proofs.GoWalkVar Proofs.GoWalkVarFinal.
+Theorem C18_var_walker_from_source : forall c rules tv b,
+  run_var_validate c rules fn_VVar_validate tv b =
+  Some (match rm_get rules validVarFieldName with
+        | [] => Ok (put b [CField [] [] (FKnown (s2b "have no set rule"))])
+        | vns => var_rules c tv (names_split COMMA vns) b
+        end).
+Proof. exact var_validate_from_source. Qed.
+Print Assumptions C18_var_walker_from_source.
+
+Theorem C18_var_entry_from_source : forall c rules (rs : list str) v,
+  rules = rm_set [] validVarFieldName rs ->
+  remove_ptr v <> VInvalid -> var_supported (kind (remove_ptr v)) = true ->
+  match run_var_validate c rules fn_VVar_validate (remove_ptr v) empty_buf with
+  | Some r => var_valid c rs (Some v) = (b <- r ;; Ok (get_error b))
+  | None => False
+  end.
+Proof. exact var_valid_via_source. Qed.
+Print Assumptions C18_var_entry_from_source.
+
+(* VMap.getKey (valid/validmap.go) from the source text: the path of a map entry *)
+Theorem C18_map_key_path_from_source : forall c rules prefix key,
+  run_get_key c rules fn_VMap_getKey prefix key = Some (map_get_key prefix key).
+Proof. exact get_key_from_source. Qed.
+Print Assumptions C18_map_key_path_from_source.
